@@ -111,8 +111,12 @@ def _run_one(args):
 
 
 def run_suite(prop, jobs=16):
-  mod = importlib.import_module(f"rules.{prop.lower()}")
-  variants = getattr(mod, "VARIANTS", [])
+  variants = []
+  rules_dir = os.path.join(core.VERIF, "rules")
+  for f in sorted(os.listdir(rules_dir)):
+    if f.endswith(".py") and f[:-3].split("_")[0] == prop.lower():
+      mod = importlib.import_module(f"rules.{f[:-3]}")
+      variants += list(getattr(mod, "VARIANTS", []))
   if not variants:
     return {"variants": 0}
   work = [(prop, v) for v in variants]
